@@ -224,8 +224,10 @@ theorem evalX_ctx (E : Env) : ∀ (apply : Bool) (e : Expr) {st r st'},
     simp only at h
     split at h
     · cases h; exact i
-    · obtain ⟨⟨v, st3⟩, h3, h⟩ := bind_ok h
-      cases h; exact (callFunction_ctx h3).trans i
+    · split at h
+      · cases h; exact i
+      · obtain ⟨⟨v, st3⟩, h3, h⟩ := bind_ok h
+        cases h; exact (callFunction_ctx h3).trans i
   | ap, .test e name args, st, r, st', h => by
     have tail : ∀ {v : Val} {st2 : St}, st2.ctx = st.ctx → ∀ {av : List Val},
         (if E.spyTests.contains name = true then do
